@@ -74,6 +74,9 @@ def write_cases(proj, tier):
             if t.count == 1:
                 for v in vals:
                     out.append((text, v, cls))
+                ov = Q.overlong(t.typ, vals[0])
+                if ov is not None:
+                    out.append((text, ov, cls + "-nested-long"))
                 if not isinstance(t.typ, TypeDef) and t.typ not in ("BOOL", "DWORD", "REAL", "LREAL"):
                     bits = Q.INT_TYPES[t.typ]
                     signed = Q.ATOMS[t.typ][2][2]
@@ -86,6 +89,8 @@ def write_cases(proj, tier):
                 if isinstance(t.typ, TypeDef) and t.typ.string_capacity is not None:
                     lst = [v[: t.typ.string_capacity] for v in lst]
                 out.append((text, lst, cls))
+                if Q.overlong(t.typ, lst[0]) is not None:
+                    out.append((text, [Q.overlong(t.typ, v) for v in lst], cls + "-nested-long"))
                 out.append((text, lst + [lst[0]], cls + "-long"))
                 out.append((text, lst[:-1], cls + "-short"))
     return out
